@@ -14,6 +14,7 @@ from ..facts import FuncFacts, facts_at
 from ..report import Ctx, AnalysisError
 from .. import apirules as A
 from .. import moderules as M
+from .. import relrules as RR
 from .c06 import _check_projection
 
 REL = "pydcop.dcop.relations"
@@ -85,20 +86,10 @@ def check(ctx: Ctx):
         ctx.ok("R-ALIGN", "no unguarded raw-table combination in relations.py / dpop.py (fixture matched)", m, None)
     # values leave the table as Python numbers: arithmetic on numpy scalars of a narrow dtype wraps around silently
     ctx.rule("R-SCALAR", "get_value_for_assignment returns <table>.item() (a Python number), not a numpy scalar of the table's dtype")
-    gv = repo.func(REL, "NAryMatrixRelation.get_value_for_assignment")
-    ctx.touch(gv)
-    ffg = FuncFacts(gv.node)
-    n_ret = 0
-    for r_ in ast.walk(gv.node):
-        if isinstance(r_, ast.Return) and r_.value is not None:
-            fs = {norm(t) for t, p_ in facts_at(ffg, r_) if p_}
-            if any(t.startswith("isinstance(") and ("list" in t or "dict" in t) for t in fs):
-                n_ret += 1
-                v = r_.value
-                ok = isinstance(v, ast.Call) and isinstance(v.func, ast.Attribute) and v.func.attr == "item" and norm(v.func.value).endswith("._m") and not v.args
-                ctx.check(ok, "R-SCALAR", "the looked-up value is converted with .item()", gv, r_,
-                          "join adds the values of its two operands: with numpy scalars the sum is computed in the tables' fixed-width dtype (int8 100+100 = -56)")
-    ctx.check(n_ret >= 2, "R-SCALAR", "list and dict forms both return the cell value", gv, gv.node, "")
+    RR.check_matrix_scalar(ctx, "R-SCALAR")
+    # projection takes, for every remaining assignment, the optimum found by find_arg_optimal: a strictly better value must replace the running optimum
+    ctx.rule("R-TIES", "find_arg_optimal (projection's optimiser): only exact ties are ties; a strictly better value replaces the running optimum")
+    RR.check_fao_ties(ctx, "R-TIES")
     proj = repo.func(REL, "projection")
     M.check_mode_args(ctx, [proj], "R-MODE.a")
     _check_projection(ctx, proj)
@@ -387,6 +378,7 @@ def _check_slice_matrix(ctx, sm: FuncInfo):
 
 _R = "pydcop/dcop/relations.py"
 VARIANTS = [
+    ("projection_optimum_tie_by_tolerance", "pydcop/dcop/relations.py", "        elif current_rel_val == best_rel_val:", "        elif abs(current_rel_val - best_rel_val) < 1e-9:", "break", "R-TIES"),
     ("value_as_numpy_scalar", "pydcop/dcop/relations.py", "        elif isinstance(var_values, dict):\n            u = self.slice(var_values)\n            return u._m.item()", "        elif isinstance(var_values, dict):\n            u = self.slice(var_values)\n            return u._m[()]", "break", "R-SCALAR"),
     ("itemset_back", _R, "            matrix = np.copy(self._m)\n            matrix[s] = rel_value\n            return NAryMatrixRelation(self._variables, matrix, name=self.name)\n        raise",
      "            matrix = np.copy(self._m)\n            matrix.itemset(s, rel_value)\n            return NAryMatrixRelation(self._variables, matrix, name=self.name)\n        raise", "break", "R-API"),
